@@ -12,34 +12,35 @@ variable {q : Core.Prog} {p : Fun.CheckedProgram}
 
 /-- a term of the fragment in operand position (of a statement whose operand has type `i64`) -/
 theorem operand_sim (hcod : CodOK p q) {cp : Bool} {μ : Nat} :
-    ∀ (b : Fun.Term), good p b = true → ∀ {st : CompileState} {B : Core.Term}
+    ∀ (b : Fun.Term), good p b = true → getType b = some .i64 → ∀ {st : CompileState} {B : Core.Term}
       {st' : CompileState} {env : Fun.Env} {K : Fun.Stack} {ρ0 ρ : CEnv} {n : Nat} {out : Out}
       (Sx : Core.Term → Core.Stmt),
       (∀ A, A.isVar = false → (Sx A).split = some (.prd, A, Sx)) →
       compile b .i64 st = .ok (B, st') → StOK q st' → TermNames b st →
-      EnvRel (GP p) q n (fv b) env ρ0 → BoundOn (tfvTerm B []) ρ0 → AgreeOn (tfvTerm B []) ρ0 ρ →
-      (∀ τ, KRel (GP p) q (n + 1) K
+      EnvRel (GP p) p q n (fv b) env ρ0 → BoundOn (tfvTerm B []) ρ0 → AgreeOn (tfvTerm B []) ρ0 ρ →
+      (∀ τ, KRel (GP p) p q (n + 1) K
         (.mutilde ρ (Core.sigmaName n) (Sx (.var .prd (Core.sigmaName n) τ)))) →
       (∀ ρ' n' z τ v V, n ≤ n' → SigExt n ρ ρ' → Core.Env.lookup ρ' z = .ok V →
-        VRel (GP p) q n v V → (z.name = sig → z.id < n') →
+        VRel (GP p) p q n v V → (z.name = sig → z.id < n') →
         Chunk p q (R p q) true cp μ (.ret v K) ⟨Sx (.var .prd z τ), ρ', out, n'⟩) →
       Chunk p q (R p q) false cp μ (.eval b env K) ⟨Sx B, ρ, out, n⟩
-  | .var x vty chi, hg, st, B, st', _, _, _, _, _, _, Sx, hsp, hcB, hst, htn, he, hbd, hag, _, hF => by
-    simp only [good] at hg
-    obtain ⟨τ, rfl, hnc⟩ := hcod.ncd hg
+  | .var x vty chi, hg, hbt, st, B, st', _, _, _, _, _, _, Sx, hsp, hcB, hst, htn, he, hbd, hag, _, hF => by
+    obtain rfl : vty = some .i64 := hbt
+    have hnc : Core.isCodata q.codataTypes (compileTy .i64) = false := rfl
+    generalize Fun.Ty.i64 = τ at hcB hnc htn he
     have hB : B = .var .prd ⟨x, 0⟩ (compileTy τ) := by
       rw [c_var] at hcB
       simp only [Except.ok.injEq, Prod.mk.injEq] at hcB
       exact hcB.1.symm
     exact operand_direct Sx hsp (b := .var x (some τ) chi) rfl hcB hst htn he hbd hag
       (by rw [hB]; exact hnc) hF
-  | .lit k, _, st, B, st', _, _, _, _, _, _, Sx, hsp, hcB, hst, htn, he, hbd, hag, _, hF => by
+  | .lit k, _, _, st, B, st', _, _, _, _, _, _, Sx, hsp, hcB, hst, htn, he, hbd, hag, _, hF => by
     have hB : B = .lit k := by
       rw [c_lit] at hcB
       simp only [Except.ok.injEq, Prod.mk.injEq] at hcB
       exact hcB.1.symm
     exact operand_direct Sx hsp (b := .lit k) rfl hcB hst htn he hbd hag (by rw [hB]; rfl) hF
-  | .op a o b, hg, st, B, st', _, _, _, _, _, _, Sx, hsp, hcB, hst, htn, he, hbd, hag, _, hF => by
+  | .op a o b, hg, hbt, st, B, st', _, _, _, _, _, _, Sx, hsp, hcB, hst, htn, he, hbd, hag, _, hF => by
     simp only [good, Bool.and_eq_true] at hg
     have hB : B.ty = .i64 := by
       rw [c_op] at hcB
@@ -54,9 +55,11 @@ theorem operand_sim (hcod : CodOK p q) {cp : Bool} {μ : Nat} :
     exact operand_direct Sx hsp (b := .op a o b)
       (by simp [pureD, goodP_pureFO p a hg.1, goodP_pureFO p b hg.2]) hcB hst htn he hbd hag
       (by rw [hB]; rfl) hF
-  | .ctor c as cty, hg, st, B, st', _, _, _, _, _, _, Sx, hsp, hcB, hst, htn, he, hbd, hag, _, hF => by
+  | .ctor c as cty, hg, hbt, st, B, st', _, _, _, _, _, _, Sx, hsp, hcB, hst, htn, he, hbd, hag, _, hF => by
     simp only [good, Bool.and_eq_true] at hg
-    obtain ⟨τ, rfl, hnc⟩ := hcod.ncd hg.2
+    obtain rfl : cty = some .i64 := hbt
+    have hnc : Core.isCodata q.codataTypes (compileTy .i64) = false := rfl
+    generalize Fun.Ty.i64 = τ at hcB hnc htn he
     have hB : B.ty = compileTy τ := by
       rw [c_ctor] at hcB
       cases hca : compileSubst as st with
@@ -66,39 +69,50 @@ theorem operand_sim (hcod : CodOK p q) {cp : Bool} {μ : Nat} :
         rw [← hcB.1]; rfl
     exact operand_direct Sx hsp (b := .ctor c as (some τ))
       (by simp [pureD, goodPs_pureFOs p as hg.1]) hcB hst htn he hbd hag (by rw [hB]; exact hnc) hF
-  | .paren t, hg, st, B, st', env, K, ρ0, ρ, n, out, Sx, hsp, hcB, hst, htn, he, hbd, hag, hK, hF => by
+  | .paren t, hg, hbt, st, B, st', env, K, ρ0, ρ, n, out, Sx, hsp, hcB, hst, htn, he, hbd, hag, hK, hF => by
     have f1 : FSteps p (.eval (.paren t) env K) (.eval t env K) [] 1 := .one rfl
     refine Chunk.prefix f1 (.refl _) rfl (fun h => by cases h) (fun h => .inr h) ?_
-    exact operand_sim hcod t (by simpa [good] using hg) Sx hsp (by rwa [c_paren] at hcB) hst
+    exact operand_sim hcod t (by simpa [good] using hg) (by simpa [getType] using hbt) Sx hsp (by rwa [c_paren] at hcB) hst
       ⟨by simpa [fv] using htn.fv, by simpa [binderNames] using htn.bd, htn.nosig⟩
       (by simpa [fv] using he) hbd hag hK hF
-  | .label a t lty, hg, _, _, _, _, _, _, _, _, _, Sx, hsp, hcB, hst, htn, he, hbd, hag, hK, _ =>
-    operand_label Sx hsp hcod hg hcB hst htn he hbd hag hK
-  | .ifc s a b t e ty, hg, _, _, _, _, _, _, _, _, _, Sx, hsp, hcB, hst, htn, he, hbd, hag, hK, _ =>
+  | .label a t lty, hg, hbt, _, _, _, _, _, _, _, _, _, Sx, hsp, hcB, hst, htn, he, hbd, hag, hK, _ =>
+    operand_label Sx hsp hg hbt hcB hst htn he hbd hag hK
+  | .ifc s a b t e ty, hg, hbt, _, _, _, _, _, _, _, _, _, Sx, hsp, hcB, hst, htn, he, hbd, hag, hK, _ =>
     operand_default Sx hsp hg hcB (c_ifc ..) rfl hst htn he hbd hag hK
-  | .ifz s a t e ty, hg, _, _, _, _, _, _, _, _, _, Sx, hsp, hcB, hst, htn, he, hbd, hag, hK, _ =>
+  | .ifz s a t e ty, hg, hbt, _, _, _, _, _, _, _, _, _, Sx, hsp, hcB, hst, htn, he, hbd, hag, hK, _ =>
     operand_default Sx hsp hg hcB (c_ifz ..) rfl hst htn he hbd hag hK
-  | .print nl a n' ty, hg, _, _, _, _, _, _, _, _, _, Sx, hsp, hcB, hst, htn, he, hbd, hag, hK, _ =>
+  | .print nl a n' ty, hg, hbt, _, _, _, _, _, _, _, _, _, Sx, hsp, hcB, hst, htn, he, hbd, hag, hK, _ =>
     operand_default Sx hsp hg hcB (c_print ..) rfl hst htn he hbd hag hK
-  | .letIn x vt b i ty, hg, _, _, _, _, _, _, _, _, _, Sx, hsp, hcB, hst, htn, he, hbd, hag, hK, _ =>
+  | .letIn x vt b i ty, hg, hbt, _, _, _, _, _, _, _, _, _, Sx, hsp, hcB, hst, htn, he, hbd, hag, hK, _ =>
     operand_default Sx hsp hg hcB (c_letIn ..) rfl hst htn he hbd hag hK
-  | .call f as ty, hg, _, _, _, _, _, _, _, _, _, Sx, hsp, hcB, hst, htn, he, hbd, hag, hK, _ =>
+  | .call f as ty, hg, hbt, _, _, _, _, _, _, _, _, _, Sx, hsp, hcB, hst, htn, he, hbd, hag, hK, _ =>
     operand_default Sx hsp hg hcB (c_call ..) rfl hst htn he hbd hag hK
-  | .case s ta cs ty, hg, _, _, _, _, _, _, _, _, _, Sx, hsp, hcB, hst, htn, he, hbd, hag, hK, _ =>
+  | .case s ta cs ty, hg, hbt, _, _, _, _, _, _, _, _, _, Sx, hsp, hcB, hst, htn, he, hbd, hag, hK, _ =>
     operand_default Sx hsp hg hcB (c_case ..) rfl hst htn he hbd hag hK
-  | .dtor s d ta as ty, hg, _, _, _, _, _, _, _, _, _, Sx, hsp, hcB, hst, htn, he, hbd, hag, hK, _ =>
+  | .dtor s d ta as ty, hg, hbt, _, _, _, _, _, _, _, _, _, Sx, hsp, hcB, hst, htn, he, hbd, hag, hK, _ =>
     operand_default Sx hsp hg hcB (c_dtor ..) rfl hst htn he hbd hag hK
-  | .goto a t ty, hg, _, _, _, _, _, _, _, _, _, Sx, hsp, hcB, hst, htn, he, hbd, hag, hK, _ =>
+  | .goto a t ty, hg, hbt, _, _, _, _, _, _, _, _, _, Sx, hsp, hcB, hst, htn, he, hbd, hag, hK, _ =>
     operand_default Sx hsp hg hcB (c_goto ..) rfl hst htn he hbd hag hK
-  | .exit t ty, hg, _, _, _, _, _, _, _, _, _, Sx, hsp, hcB, hst, htn, he, hbd, hag, hK, _ =>
+  | .exit t ty, hg, hbt, _, _, _, _, _, _, _, _, _, Sx, hsp, hcB, hst, htn, he, hbd, hag, hK, _ =>
     operand_default Sx hsp hg hcB (c_exit ..) rfl hst htn he hbd hag hK
-  | .new .., hg, _, _, _, _, _, _, _, _, _, _, _, _, _, _, _, _, _, _, _ => by simp [good] at hg
+  | .new cs cty, hg, hbt, st, B, st', _, _, _, _, _, _, Sx, hsp, hcB, hst, htn, he, hbd, hag, _, hF => by
+    simp only [good, Bool.and_eq_true] at hg
+    obtain rfl : cty = some .i64 := hbt
+    have hB : B.ty = .i64 := by
+      rw [c_new] at hcB
+      cases hca : compileCoclauses cs st with
+      | error e => simp [hca] at hcB
+      | ok ra =>
+        simp only [hca, Except.ok.injEq, Prod.mk.injEq] at hcB
+        rw [← hcB.1]; rfl
+    exact operand_direct Sx hsp (b := .new cs (some .i64))
+      (by simp [pureD, hg.1]) hcB hst htn he hbd hag (by rw [hB]; rfl) hF
 
 /-! ## entering a translated sub-statement -/
 
 theorem CRel.sigExt {n m : Nat} {k : Fun.Stack} {c : Core.Term} {ρ0 ρ0' : CEnv}
-    (h : CRel (GP p) q n k c ρ0) (he : SigExt m ρ0 ρ0')
-    (hc : ∀ b ∈ tfvTerm c [], b.var.name = sig → b.var.id < m) : CRel (GP p) q n k c ρ0' :=
+    (h : CRel (GP p) p q n k c ρ0) (he : SigExt m ρ0 ρ0')
+    (hc : ∀ b ∈ tfvTerm c [], b.var.name = sig → b.var.id < m) : CRel (GP p) p q n k c ρ0' :=
   h.agree fun b hb => he.lookup b.var (hc b hb)
 
 theorem ConsNames.sig_lt {c : Core.Term} {st : CompileState} {i m : Nat} (h : ConsNames c st i)
@@ -117,7 +131,7 @@ theorem ConsNames.sig_lt {c : Core.Term} {st : CompileState} {i m : Nat} (h : Co
 theorem srel_enter {t : Fun.Term} {c : Core.Term} {T : Core.Stmt} {i m n' : Nat} {env : Fun.Env}
     {k : Fun.Stack} {ρ0 ρ ρ' : CEnv} {out : Out}
     (hg : good p t = true) (hc : Compiled q i t c T) (him : i ≤ m) (hin : i ≤ n')
-    (he : EnvRel (GP p) q n' (fv t) env ρ0) (hr : CRel (GP p) q n' k c ρ0)
+    (he : EnvRel (GP p) p q n' (fv t) env ρ0) (hr : CRel (GP p) p q n' k c ρ0)
     (hb : BoundOn (tfvStmt T []) ρ0) (ha : AgreeOn (tfvStmt T []) ρ0 ρ) (hext : SigExt m ρ ρ') :
     R p q (.eval t env k) ⟨T, ρ', out, n'⟩ := by
   obtain ⟨ρ0', hext0, hag⟩ := hext.agree (ρ0 := ρ0)
